@@ -693,10 +693,26 @@ pub fn programs(tier: &str) -> Vec<(Program, Option<usize>)> {
     v
 }
 
-pub fn run(tier: &str, slice: (u64, u64), seed: u64) -> WorkerResult {
+/// Programs relevant to a property for which SCHED is a secondary engine (quick tier only).
+fn relevant(p: &Program, prop: &str) -> bool {
+    let ops: Vec<&TOp> = p.threads.iter().flatten().collect();
+    let writers = ops.iter().filter(|o| matches!(o, TOp::Put { .. } | TOp::Remove { .. } | TOp::RemoveRangeAll)).count();
+    match prop {
+        "C13" => ops.iter().any(|o| matches!(o, TOp::Abort { .. })),
+        "C08" => ops.iter().any(|o| o.is_cleanup()),
+        "C07" => ops.iter().all(|o| !o.is_read()) && writers >= 1 && p.init != Init::Empty,
+        "C06" => writers >= 1 && ops.iter().all(|o| matches!(o, TOp::Put { .. } | TOp::Remove { .. } | TOp::RemoveRangeAll | TOp::GetReader { .. } | TOp::Abort { .. })) && p.init != Init::Empty,
+        _ => true,
+    }
+}
+
+pub fn run(tier: &str, slice: (u64, u64), seed: u64, prop: &str) -> WorkerResult {
     crate::shim::require();
     let mut res = WorkerResult::new("sched");
-    let ps = programs(tier);
+    let mut ps = programs(tier);
+    if tier == "quick" {
+        ps.retain(|(p, _)| relevant(p, prop));
+    }
     let total = ps.len();
     let cap = if tier == "quick" { 4_000 } else { 60_000 };
     for (j, (p, bound)) in ps.iter().enumerate() {
@@ -711,7 +727,7 @@ pub fn run(tier: &str, slice: (u64, u64), seed: u64) -> WorkerResult {
         }
     }
     if slice.0 == 0 {
-        res.completed.push(format!("{total} programs: all unordered pairs of single operations from a 17-op menu on 4 initial stores (N=10000) and on a=X with N=1 (rollover checkpoint inside every write): every interleaving, no preemption bound; three-thread programs with <= {} preemptions; two-ops-per-thread programs", if tier == "quick" { 2 } else { 3 }));
+        res.completed.push(format!("{total} programs{}: all unordered pairs of single operations from a 17-op menu on 4 initial stores (N=10000) and on a=X with N=1 (rollover checkpoint inside every write): every interleaving, no preemption bound; three-thread programs with <= {} preemptions; two-ops-per-thread programs", if tier == "quick" && matches!(prop, "C13" | "C08" | "C07" | "C06") { format!(" (the subset of the following relevant to {prop})") } else { String::new() }, if tier == "quick" { 2 } else { 3 }));
     }
     res
 }
